@@ -286,7 +286,7 @@ def build_classes(u):
     from spyne import rpc, ServiceBase
     b = Built()
     b.u, b.cls, b.enums, b.patterns = u, {}, {}, {}
-    b.calls, b.ret = [], {}
+    b.calls, b.ret, b.in_hdrs, b.out_hdr = [], {}, [], {}
     for c in u['classes']:
         base = b.cls[c['base']] if c['base'] else ComplexModel
         d = {'__namespace__': c['ns'], '_type_info': [(k, build_tyref(b, t)) for k, t in c['own']]}
@@ -295,8 +295,9 @@ def build_classes(u):
     methods = {}
     for m in u['methods']:
         names = [a for a, _ in m['args']]
-        src = 'def %s(ctx%s):\n    _b.calls.append((%r, [%s]))\n    return _b.ret.get(%r)\n' % (
-            m['name'], ''.join(', ' + a for a in names), m['name'], ', '.join(names), m['name'])
+        src = ('def %s(ctx%s):\n    _b.calls.append((%r, [%s]))\n    _b.in_hdrs.append(ctx.in_header)\n'
+               '    if %r in _b.out_hdr:\n        ctx.out_header = _b.out_hdr[%r]\n    return _b.ret.get(%r)\n') % (
+            m['name'], ''.join(', ' + a for a in names), m['name'], ', '.join(names), m['name'], m['name'], m['name'])
         exec(src, env)
         in_types = [build_tyref(b, t) for _, t in m['args']]
         rets = [build_tyref(b, t) for t in m['rets']]
@@ -305,6 +306,12 @@ def build_classes(u):
             kw['_returns'] = rets[0]
         elif len(rets) > 1:
             kw['_returns'] = rets
+        if m.get('style') and m['style'] != 'wrapped':
+            kw['_body_style'] = m['style']
+        if m.get('in_hdr'):
+            kw['_in_header'] = tuple(b.cls[c] for c in m['in_hdr'])
+        if m.get('out_hdr'):
+            kw['_out_header'] = tuple(b.cls[c] for c in m['out_hdr'])
         methods[m['name']] = rpc(*in_types, **kw)(env[m['name']])
     b.service = type('Svc%d' % u['idx'], (ServiceBase,), methods)
     return b
@@ -412,9 +419,16 @@ def iface_of(b, app):
 def method_types(b, app):
     """method name -> (request key, in-message Ty, out-message Ty)"""
     res = {}
+    b.minfo = {}
     for key, descs in app.interface.service_method_map.items():
         d = descs[0]
         res[d.name] = (key, ty_of(b, d.in_message), ty_of(b, d.out_message))
+        style = d.body_style.__name__.replace('BODY_STYLE_', '').lower()
+        om = d.out_message
+        b.minfo[d.name] = {'style': style,
+                           'out_name': getattr(om.Attributes, 'sub_name', None) or om.get_type_name(),
+                           'in_hdr': None if d.in_header is None else [ty_of(b, h) for h in d.in_header],
+                           'out_hdr': None if d.out_header is None else [ty_of(b, h) for h in d.out_header]}
     return res
 
 
@@ -1157,6 +1171,7 @@ def run_request(b, server, data):
     r = RunResult()
     r.calls, r.fault, r.crash, r.out, r.where, r.tb, r.in_fault = [], None, None, None, None, None, None
     del b.calls[:]
+    del b.in_hdrs[:]
     stage = 'generate_contexts'
     try:
         ictx = MethodContext(server, MethodContext.SERVER)
@@ -1188,7 +1203,7 @@ def run_request(b, server, data):
 
 def facts_lean(f):
     return '''-- GENERATED by harness/xmlblock.py (T1) from /repo on every run. Do not edit.
-import SpyneModel.Soap
+import SpyneModel.Client
 namespace SpyneModel.Generated
 open SpyneModel
 
@@ -1200,10 +1215,15 @@ def factsXml : Xml.FactsXml where
 
 def factsSoap : Soap.FactsSoap where
   emptyBodyGuard := %s
+  outHeaderTupleOk := %s
+
+def factsClient : Client.FactsClient where
+  kwFalsyKept := %s
 
 end SpyneModel.Generated
 ''' % (f['nilRule'], str(f['xsiTypeCheck']).lower(), str(f['childAttrGuard']).lower(),
-       str(f['emptyStringText']).lower(), str(f['emptyBodyGuard']).lower())
+       str(f['emptyStringText']).lower(), str(f['emptyBodyGuard']).lower(), str(f['outHeaderTupleOk']).lower(),
+       str(f['kwFalsyKept']).lower())
 
 
 def finish_built(b, app):
@@ -1308,12 +1328,55 @@ def measure_facts():
     f['emptyBodyGuard'] = r[0] == 'fault' and r[1].startswith('Client')
     w['emptyBodyGuard'] = {'proto': 'soap11', 'validator': None, 'request': d,
                            'expected': 'Client fault', 'observed': repr(r)}
+    # outHeaderTupleOk: two declared out headers, ctx.out_header assigned a tuple
+    from lxml import etree
+    u2 = witness_universe()
+    u2['idx'] = 9998
+    i = u2['methods'][0]['args'][0][1]
+    u2['methods'] = [{'name': 'h0', 'args': [['a0', i]], 'rets': [i], 'out_hdr': ['W0', 'W2']}]
+    b2 = build_classes(u2)
+    app2, server2 = make_app(b2, 'soap11', None)
+    finish_built(b2, app2)
+    b2.ret['h0'] = 1
+    W0, W2 = b2.cls['W0'], b2.cls['W2']
+    b2.out_hdr['h0'] = (W0(x=1, s='t'), W2(z=2))
+    req = '<e:Envelope xmlns:e="%s"><e:Body><h0 xmlns="urn:w"><a0>1</a0></h0></e:Body></e:Envelope>' % NS_SOAP11
+    r = run_request(b2, server2, req.encode())
+    got = None
+    if r.out and not r.crash:
+        try:
+            hdr = etree.fromstring(r.out).find('{%s}Header' % NS_SOAP11)
+            got = None if hdr is None else [c.tag for c in hdr]
+        except Exception as e:
+            got = repr(e)
+    f['outHeaderTupleOk'] = got == ['{urn:w}W0', '{urn:w}W2'] and not r.fault
+    w['outHeaderTupleOk'] = {'proto': 'soap11', 'validator': None, 'request': req,
+                             'expected': 'service with __out_header__ = (W0, W2) sets ctx.out_header = (W0(...), W2(...)): the '
+                                         'response Header holds a W0 and a W2 element',
+                             'observed': 'crash=%s fault=%s header children=%r' % (r.crash, r.fault, got)}
+    # kwFalsyKept: the Spyne client, keyword argument with value 0
+    u3 = witness_universe()
+    u3['idx'] = 9997
+    u3['methods'] = [{'name': 'k0', 'args': [['a0', i], ['a1', i]], 'rets': [i]}]
+    b3 = build_classes(u3)
+    app3, server3 = make_app(b3, 'xml', None)
+    finish_built(b3, app3)
+    b3.ret['k0'] = 0
+    rec = {}
+    try:
+        ret = make_client(b3, app3, rec).service.k0(7, a1=0)
+        obs = (b3.calls[0][1] if b3.calls else None, ret)
+    except Exception as e:
+        obs = repr(e)
+    f['kwFalsyKept'] = obs == ([7, 0], 0)
+    w['kwFalsyKept'] = {'proto': 'xml', 'validator': None, 'request': 'client.service.k0(7, a1=0)',
+                        'expected': 'the function receives (7, 0) and the caller gets 0 back', 'observed': repr(obs)}
     return f, w, u
 
 
 GOOD = {'nilRule': 'xsdBoolean', 'xsiTypeCheck': True, 'childAttrGuard': True, 'emptyStringText': True,
-        'emptyBodyGuard': True}
-SWITCH_PROPS = {'C01': ('nilRule', 'emptyStringText'), 'C04': ('xsiTypeCheck',), 'C05': ('nilRule', 'emptyStringText'),
+        'emptyBodyGuard': True, 'outHeaderTupleOk': True, 'kwFalsyKept': True}
+SWITCH_PROPS = {'C01': ('nilRule', 'emptyStringText', 'outHeaderTupleOk', 'kwFalsyKept'), 'C04': ('xsiTypeCheck',), 'C05': ('nilRule', 'emptyStringText'),
                 'C10': ('childAttrGuard', 'emptyBodyGuard'), 'C16': ()}
 
 
@@ -1338,8 +1401,13 @@ def to_bytes(node):
 
 
 def norm_answer(a):
-    """the model's crash class is not compared (the implementation wraps it into a Server fault)"""
-    return {'crash': '*'} if isinstance(a, dict) and 'crash' in a else a
+    """the model's crash class is not compared (the implementation wraps it into a Server fault); ctx.in_header is
+    None both without a Header element and for a single declared header that was not sent"""
+    if isinstance(a, dict) and 'crash' in a:
+        return {'crash': '*'}
+    if isinstance(a, dict) and isinstance(a.get('ok'), list) and len(a['ok']) == 3 and a['ok'][1] == {'absent': True}:
+        return {'ok': [a['ok'][0], {'h': None}, a['ok'][2]]}
+    return a
 
 
 def cfg_json(validator, polymorphic=False):
@@ -1478,7 +1546,8 @@ def impl_decode_outcome(b, r):
         return {'crash': '*'}
     name, args = r.calls[0]
     key, in_ty, _ = b.methods[name]
-    return {'ok': [key, {'o': [in_ty['name'], [[k, from_native(b, t, a)] for (k, t), a in zip(in_ty['fields'], args)]]}]}
+    style = getattr(b, 'minfo', {}).get(name, {}).get('style', 'wrapped')
+    return {'ok': [key, _in_object(b, r, in_ty, style)]}
 
 
 def gen_call(rng, b, mname):
@@ -1877,7 +1946,7 @@ def _no_bad(v):
 def replay(ctx, obj):
     """re-execute one recorded case on the implementation (and, when the document parses, on the model)"""
     kind = obj.get('kind')
-    if kind not in ('switch', 'c01', 'c04', 'c05', 'c10', 'c16', 'c16-order') or \
+    if kind not in ('switch', 'c01', 'c01x', 'c01c', 'c04', 'c05', 'c10', 'c16', 'c16-order') or \
             (kind == 'switch' and obj.get('switch') not in GOOD):
         raise KeyError(kind)        # another block's replay file
     if kind == 'switch':
@@ -1891,6 +1960,8 @@ def replay(ctx, obj):
     if 'universe' not in obj:
         print(json.dumps(obj, indent=1)[:3000])
         return 1
+    if kind == 'c01c':
+        return replay_client(ctx, obj)
     u = obj['universe']
     b = build_classes(u)
     poly = bool(obj.get('polymorphic'))
@@ -1899,6 +1970,17 @@ def replay(ctx, obj):
     mname = obj.get('method')
     if mname and 'rets' in obj:
         set_return(b, mname, b.methods[mname][2], obj['rets'])
+    if kind == 'c01x':
+        key, in_ty, out_ty = b.methods[mname]
+        mi = b.minfo[mname]
+        if mi['style'] == 'wrapped':
+            set_return(b, mname, out_ty, [v for _, v in obj['out']['o'][1]])
+        else:
+            b.ret[mname] = to_native(b, out_ty, obj['out']) if obj['out'] is not None else None
+        if obj.get('out_header_form', 'unset') != 'unset':
+            nat = [to_native_one(b, t, v) for t, v in zip(mi['out_hdr'], obj['out_headers'])]
+            form = obj['out_header_form']
+            b.out_hdr[mname] = nat[0] if form == 'single' else tuple(nat) if form == 'tuple' else list(nat)
     data = obj['request'].encode('utf-8', 'surrogatepass') if isinstance(obj['request'], str) else bytes(obj['request'])
     if 'request_hex' in obj:
         data = bytes.fromhex(obj['request_hex'])
@@ -2641,3 +2723,476 @@ def part_c10(ctx):
                                'hostile literals, 13 kinds of structure-aware tree mutation and 12 kinds of envelope / dispatch '
                                'damage; {xml,soap11,soap12} x {None,soft,lxml} through ServerBase, a sample through WsgiApplication; '
                                'every parseable document is also run through the Lean model (outcome class and values)')
+
+
+# ====================================================================================== C01 extension: headers, body styles, client
+def gen_universe_ext(rng, idx):
+    """a universe whose methods use every body style and declare 0/1/2+ in/out SOAP header classes"""
+    u = gen_universe(rng, idx, n_classes=rng.randint(2, 5), inherit=0.2, n_methods=0)
+    names = [c['name'] for c in u['classes']]
+    u['methods'] = []
+    for i in range(rng.randint(2, 4)):
+        style = rng.choice(['wrapped', 'wrapped', 'bare', 'bare', 'out_bare', 'empty'])
+        if style == 'wrapped':
+            args = [['a%d' % j, gen_tyref(rng, u, 2, 'arg')] for j in range(rng.choice([0, 1, 2, 3]))]
+            rets = [gen_tyref(rng, u, 2, 'arg') for _ in range(rng.choice([0, 1, 1, 2, 3]))]
+        elif style == 'out_bare':
+            args = [['a%d' % j, gen_tyref(rng, u, 2, 'arg')] for j in range(rng.choice([1, 2]))]
+            rets = [_single(gen_tyref(rng, u, 2, 'arg'))]
+        elif style == 'bare':
+            t0 = gen_tyref(rng, u, 2, 'arg')
+            if t0['k'] == 'ref' and not [c for c in u['classes'] if c['name'] == t0['cls']][0]['own']:
+                t0 = {'k': 'prim', 'p': gen_prim(rng), 'o': gen_occ(rng, 'arg')}     # spyne refuses an empty model as bare parameter
+            args = [['a0', _single(t0)]]
+            rets = [_single(gen_tyref(rng, u, 2, 'arg'))] if rng.random() < 0.8 else []
+        else:       # bare without arguments: BODY_STYLE_EMPTY / EMPTY_OUT_BARE
+            style, args = 'bare', []
+            rets = [_single(gen_tyref(rng, u, 2, 'arg'))] if rng.random() < 0.6 else []
+        m = {'name': 'x%d' % i, 'args': args, 'rets': rets, 'style': style}
+        for key in ('in_hdr', 'out_hdr'):
+            n = rng.choice([0, 0, 1, 1, 2, 3])
+            if n and names:
+                m[key] = rng.sample(names, min(n, len(names)))
+        u['methods'].append(m)
+    return u
+
+
+def _single(t):
+    """bare messages are one occurrence of their type"""
+    t = clone(t)
+    t['o']['max'] = 1
+    t['o']['min'] = min(t['o']['min'], 1)
+    if t['k'] == 'ref':
+        t['o'] = dict(t['o'], min=0)
+    return t
+
+
+def gen_bare(rng, ty, none_p=0.1):
+    """a conformant single occurrence (the body entry itself)"""
+    v = gen_one(rng, ty, none_p=none_p)
+    return v
+
+
+def header_nodes(b, classes, vals, tns):
+    """reference encoding of header objects: one element `{class ns}ClassName` per supplied object"""
+    return [ref_encode_one(b, t, v, t['ns'], t['name'], tns) for t, v in zip(classes, vals)]
+
+
+def expect_headers(b, classes, vals, present):
+    """what ctx.in_header must be: None without Header element, else per declared class the (normalised) object or None"""
+    if classes is None or not present:
+        return None                 # user code sees None both for "no Header" and for "one declared class, not sent"
+    out = [py_norm_x(b, t, v, True) if i < len(vals) else None for i, (t, v) in enumerate(
+        list(zip(classes, vals)) + [(t, None) for t in classes[len(vals):]])]
+    return out[0] if len(out) == 1 else {'l': out}
+
+
+def native_header(b, classes, h):
+    """ctx.in_header as received -> Val JSON"""
+    if h is None:
+        return None
+    if isinstance(h, (list, tuple)):
+        return {'l': [from_native_one(b, t, x) for t, x in zip(classes, h)]}
+    return from_native_one(b, classes[0], h)
+
+
+def decode_header_element(b, classes, hdr_el, tns):
+    """reference reading of a response Header: per declared class the element with its qualified name"""
+    out = []
+    kids = [c for c in hdr_el if isinstance(c.tag, str)] if hdr_el is not None else []
+    for t in classes:
+        mine = [c for c in kids if c.tag == '{%s}%s' % (t['ns'], t['name'])]
+        out.append(ref_decode_one(b, t, mine[-1], t['ns'], tns) if mine else 'missing')
+    return out
+
+
+def style_args(style, in_ty, inv):
+    """the positional arguments the function must be called with"""
+    if style == 'bare':
+        return [inv]
+    if style == 'empty':
+        return []
+    return [v for _, v in inv['o'][1]] if inv is not None else []
+
+
+def part_c01_ext(ctx):
+    """body styles (wrapped / bare / out_bare / empty), multiple return values and SOAP headers in both directions"""
+    from lxml import etree
+    rng = ctx.rng
+    queries, expect = [], []
+    n_univ = 120 if ctx.thorough else 18
+    for ui in range(n_univ):
+        u = gen_universe_ext(rng, 5000 + ui)
+        b = build_classes(u)
+        servers = servers_for(b)
+        for mname in sorted(b.methods):
+            key, in_ty, out_ty = b.methods[mname]
+            mi = b.minfo[mname]
+            style = mi['style']
+            for _ in range(3 if ctx.thorough else 2):
+                # ---- request side
+                if style == 'bare':
+                    # the published schema declares the body element of a bare method without nillable: a null
+                    # argument cannot be sent schema-validly, so it is not generated
+                    inv = gen_bare(rng, in_ty, none_p=0)
+                    if inv is None:
+                        continue
+                else:
+                    args = [gen_field(rng, t) for _, t in in_ty['fields']]
+                    inv = msg_val(in_ty, args)
+                if not py_ok(b, in_ty, inv, strict=True, one=True):
+                    ctx.hit('ext:skip-unsatisfiable')
+                    continue
+                # ---- response side
+                wrapped_out = style == 'wrapped'
+                if wrapped_out:
+                    rets = [gen_field(rng, t) for _, t in out_ty['fields']]
+                    outv = msg_val(out_ty, rets)
+                    nat = [to_native(b, t, v) for (_, t), v in zip(out_ty['fields'], rets)]
+                    b.ret[mname] = None if not nat else nat[0] if len(nat) == 1 else tuple(nat)
+                else:
+                    declared_ret = bool([m for m in u['methods'] if m['name'] == mname][0]['rets'])
+                    outv = gen_bare(rng, out_ty) if declared_ret else None
+                    rets = [outv]
+                    b.ret[mname] = to_native(b, out_ty, outv) if outv is not None else None
+                if not py_ok(b, out_ty, outv, strict=False, one=True):
+                    ctx.hit('ext:skip-unsatisfiable')
+                    continue
+                req = ref_encode_one(b, in_ty, inv, u['tns'], mname, u['tns'])
+                want_args = [py_norm_x(b, in_ty, inv, True)] if style == 'bare' else [] if style == 'empty' else \
+                    [py_norm(t, v) for (_, t), (_, v) in zip(in_ty['fields'], inv['o'][1])]
+                want_out = py_norm_x(b, out_ty, outv, True)
+                # ---- headers
+                ih, oh = mi['in_hdr'], mi['out_hdr']
+                hvals, hpresent = [], False
+                if ih is not None and rng.random() < 0.85:
+                    hpresent = True
+                    hvals = [gen_one(rng, t, none_p=0.15) for t in ih[:rng.choice([len(ih), len(ih), max(0, len(ih) - 1)])]]
+                    if not all(py_ok(b, t, v, strict=True, one=True) for t, v in zip(ih, hvals)):
+                        hvals = []
+                ohvals, oform = [], 'unset'
+                if oh is not None and rng.random() < 0.85:
+                    ohvals = [gen_one(rng, t, none_p=0.15) for t in oh]
+                    if all(py_ok(b, t, v, strict=False, one=True) for t, v in zip(oh, ohvals)):
+                        oform = rng.choice(['list', 'tuple', 'tuple'] + (['single'] if len(oh) == 1 or rng.random() < 0.2 else []))
+                        if oform == 'single':
+                            ohvals = ohvals[:1]
+                            if ohvals[0] is None:
+                                oform = 'unset'         # `ctx.out_header = None` IS "not set"
+                    else:
+                        ohvals = []
+                b.out_hdr.pop(mname, None)
+                if oform != 'unset':
+                    nat = [to_native_one(b, t, v) for t, v in zip(oh, ohvals)]
+                    b.out_hdr[mname] = nat[0] if oform == 'single' else tuple(nat) if oform == 'tuple' else list(nat)
+                for (proto, validator), (app, server) in sorted(servers.items(), key=str):
+                    soap = proto != 'xml'
+                    hdr_nodes = header_nodes(b, ih, hvals, u['tns']) if (soap and hpresent) else None
+                    if hdr_nodes is not None and len(hdr_nodes) > 1 and rng.random() < 0.5:
+                        hdr_nodes = hdr_nodes[::-1]             # document order need not be declared order
+                    if hdr_nodes is not None and rng.random() < 0.3:
+                        hdr_nodes = hdr_nodes + [mk_node('urn:other', 'UnknownHeader', text=cps('x'))]
+                    if not soap:
+                        env = req
+                    else:
+                        ns = NS_SOAP11 if proto == 'soap11' else NS_SOAP12
+                        kids = ([mk_node(ns, 'Header', children=hdr_nodes)] if hdr_nodes is not None else []) + \
+                            [mk_node(ns, 'Body', children=[req])]
+                        env = mk_node(ns, 'Envelope', children=kids)
+                    data = to_bytes(env)
+                    r = run_request(b, server, data)
+                    ctx.case({'p': proto, 'v': validator, 'style': style, 'in': inv, 'h': hvals, 'oh': [oform, ohvals]}, True)
+                    ctx.hit('ext:style:%s' % style)
+                    ctx.hit('ext:in-headers:%d' % (len(ih) if ih else 0))
+                    ctx.hit('ext:out-header-form:%s:%d' % (oform, len(oh) if oh else 0))
+                    replay = {'kind': 'c01x', 'universe': u, 'proto': proto, 'validator': validator, 'method': mname,
+                              'style': style, 'in': inv, 'out': outv, 'in_headers': hvals, 'out_headers': ohvals,
+                              'out_header_form': oform, 'request': data.decode('utf-8', 'replace')}
+                    if validator == 'soft' and (empty_bytes_nn(in_ty, inv) or any(empty_bytes_nn(t, v) for t, v in zip(ih or [], hvals))):
+                        ctx.hit('ext:empty-bytes-at-non-nillable-under-soft')
+                    elif r.crash:
+                        ctx.finding('c01:ext-crash:%s:%s' % (r.crash, r.tb), '%s request (%s body style, headers: in %d / out %s) '
+                                    'crashes: %s at %s' % (proto, style, len(hvals), oform, r.crash, r.tb), replay)
+                    elif r.fault:
+                        ctx.finding('c01:ext-rejected:%s:%s:%s' % (style, validator, r.fault), 'conformant %s-style request '
+                                    'rejected with %s' % (style, r.fault), dict(replay, response=(r.out or b'').decode('utf-8', 'replace')))
+                    elif len(r.calls) != 1:
+                        ctx.finding('c01:ext-calls=%d' % len(r.calls), 'user function invoked %d times' % len(r.calls), replay)
+                    else:
+                        # arguments
+                        got_args = r.calls[0][1]
+                        if style == 'bare':
+                            got = [from_native_one(b, in_ty, got_args[0])] if len(got_args) == 1 else {'bad': 'arity %d' % len(got_args)}
+                        elif style in ('empty', 'empty_out_bare'):
+                            got = list(got_args)
+                        else:
+                            got = [from_native(b, t, a) for (_, t), a in zip(in_ty['fields'], got_args)]
+                        if got != want_args:
+                            ctx.finding('c01:ext-args-differ:%s' % style, 'the function of a %s-style method received %r, sent %r'
+                                        % (style, str(got)[:200], str(want_args)[:200]), dict(replay, received=got, expected=want_args))
+                        # in headers
+                        if soap:
+                            want_h = expect_headers(b, ih, hvals, hpresent)
+                            got_h = native_header(b, ih or [], b.in_hdrs[0] if b.in_hdrs else None)
+                            if got_h != want_h:
+                                ctx.finding('c01:in-header-differs:%d-classes' % len(ih or []), 'ctx.in_header differs from the header '
+                                            'objects sent', dict(replay, received=got_h, expected=want_h))
+                        # response body
+                        try:
+                            root = etree.fromstring(r.out)
+                            body = unwrap_envelope(proto, root)
+                            if body is None or body.tag != '{%s}%s' % (u['tns'], mi['out_name']):
+                                raise RefError('response element is %s' % (None if body is None else body.tag))
+                            dec = ref_decode_one(b, out_ty, body, u['tns'], u['tns'])
+                        except RefError as e:
+                            dec = {'undecodable': str(e)}
+                        if dec != want_out:
+                            ctx.finding('c01:ext-response-differs:%s' % style, 'the response of a %s-style method does not denote '
+                                        'the returned value' % style, dict(replay, decoded=dec, expected=want_out,
+                                                                            response=r.out.decode('utf-8', 'replace')))
+                        # out headers
+                        if soap and oh is not None:
+                            hdr_el = root.find('{%s}Header' % (NS_SOAP11 if proto == 'soap11' else NS_SOAP12))
+                            if oform == 'unset':
+                                if hdr_el is not None:
+                                    ctx.finding('c01:out-header-unexpected', 'a Header is written although none was set', replay)
+                            else:
+                                try:
+                                    dech = decode_header_element(b, oh, hdr_el, u['tns'])
+                                except RefError as e:
+                                    dech = ['undecodable: %s' % e]
+                                wanth = [py_norm_x(b, t, v, True) for t, v in zip(oh, ohvals)] + ['missing'] * (len(oh) - len(ohvals))
+                                if dech != wanth:
+                                    ctx.finding('c01:out-header-differs:%s:%d-classes' % (oform, len(oh)),
+                                                'the response Header does not carry the header objects the function set (%s of %d)'
+                                                % (oform, len(ohvals)), dict(replay, decoded=dech, expected=wanth,
+                                                                            response=r.out.decode('utf-8', 'replace')))
+                    # ---- T2
+                    parsed = parse_like_spyne(data, app.in_protocol)
+                    node = node_of(parsed)
+                    impl = impl_decode_outcome(b, r)
+                    if soap:
+                        q = decode_query(b, proto, validator, node)
+                        q['op'] = 'soap.decodeH'
+                        q['hdrs'] = [[k2, b.minfo[n2]['in_hdr']] for n2, (k2, _, _) in b.methods.items()]
+                        if impl is not None and 'ok' in impl:
+                            gh = native_header(b, ih or [], b.in_hdrs[0] if b.in_hdrs else None)
+                            impl = {'ok': [impl['ok'][0], {'h': gh}, _in_object(b, r, in_ty, style)]}
+                        queries.append(q)
+                        expect.append(('soap.decodeH', impl, replay))
+                    else:
+                        if impl is not None and 'ok' in impl:
+                            impl = {'ok': [impl['ok'][0], _in_object(b, r, in_ty, style)]}
+                        queries.append(decode_query(b, proto, validator, node))
+                        expect.append(('decode', impl, replay))
+                    if r.out is not None and not r.fault and not r.crash:
+                        root = etree.fromstring(r.out)
+                        body = unwrap_envelope(proto, root)
+                        queries.append({'op': 'response', 'cfg': cfg_json(None), 'iface': slim_iface(b, False), 'style': style,
+                                        'outName': mi['out_name'], 'outMsg': out_ty, 'rets': rets})
+                        expect.append(('response', {'ok': [node_of(body)]}, replay))
+                        queries.append({'op': 'argsOf', 'cfg': cfg_json(None), 'iface': slim_iface(b, False), 'style': style,
+                                        'val': py_norm_x(b, in_ty, inv, True)})
+                        expect.append(('argsOf', {'ok': want_args}, replay))
+                        if soap:
+                            hdr_el = root.find('{%s}Header' % (NS_SOAP11 if proto == 'soap11' else NS_SOAP12))
+                            queries.append({'op': 'soap.headers', 'cfg': cfg_json(None), 'iface': slim_iface(b, False),
+                                            'classes': oh, 'out': {'kind': 'none' if oform == 'unset' else oform, 'vals': ohvals}})
+                            expect.append(('soap.headers', {'ok': None if hdr_el is None else
+                                                            [node_of(c) for c in hdr_el if isinstance(c.tag, str)]}, replay))
+    answers = ctx.model(queries, driver='C01')
+    for q, (op, impl, case), mod in zip(queries, expect, answers):
+        if impl is None:
+            ctx.hit('t2:oracle-schema-reject')
+        elif norm_answer(mod) != impl:
+            ctx.disagree(op, case, impl, mod)
+    ctx.cov['rule_ext'] = ('methods of every body style (wrapped with 0-3 arguments and 0-3 return values, bare, out_bare, bare without '
+                           'argument = empty) declaring 0/1/2/3 in- and out-header classes; header objects sent in declared or reversed '
+                           'order, with unknown header elements, partially or not at all; ctx.out_header set as single object / list / '
+                           'tuple / not at all; {xml,soap11,soap12} x {None,soft,lxml}')
+
+
+def _in_object(b, r, in_ty, style):
+    """ctx.in_object reconstructed from the captured positional arguments"""
+    args = r.calls[0][1]
+    if style == 'bare':
+        return from_native_one(b, in_ty, args[0]) if len(args) == 1 else {'bad': 'arity'}
+    return {'o': [in_ty['name'], [[k, from_native(b, t, a)] for (k, t), a in zip(in_ty['fields'], args)]]}
+
+
+# ---------------------------------------------------------------------------------- the loopback Spyne client
+def make_client(b, app, record):
+    """stock spyne client machinery (RemoteProcedureBase / ClientBase / RemoteService) over an in-process transport"""
+    from spyne.client import ClientBase, RemoteProcedureBase, RemoteService
+    from spyne.context import MethodContext
+    from spyne.server import ServerBase
+
+    class _Proc(RemoteProcedureBase):
+        def __call__(self, *args, **kwargs):
+            self.ctx, = self.contexts
+            self.get_out_object(self.ctx, args, kwargs)
+            record['out_object'] = list(self.ctx.out_object)
+            self.get_out_string(self.ctx)
+            request = b''.join(self.ctx.out_string)
+            record['request'] = request
+            server = ServerBase(self.app)
+            ictx = MethodContext(server, MethodContext.SERVER)
+            ictx.in_string = [request]
+            sctx, = server.generate_contexts(ictx)
+            if sctx.in_error is None:
+                server.get_in_object(sctx)
+            if sctx.in_error is None:
+                server.get_out_object(sctx)
+            else:
+                sctx.out_error = sctx.in_error
+            server.get_out_string(sctx)
+            record['response'] = b''.join(sctx.out_string)
+            self.ctx.in_string = [record['response']]
+            self.get_in_object(self.ctx)
+            if self.ctx.in_error is not None:
+                raise self.ctx.in_error
+            return self.ctx.in_object
+
+    class _Client(ClientBase):
+        def __init__(self, app):
+            super(_Client, self).__init__('inproc://', app)
+            self.service = RemoteService(_Proc, 'inproc://', app)
+
+    return _Client(app)
+
+
+FALSY = {'int': {'i': '0'}, 'bool': {'b': False}, 'str': {'s': []}, 'dur': {'dur': '0'}}
+
+
+def falsify(rng, ty, v):
+    """replace a value by the falsy value of its type where the declared constraints allow it"""
+    if ty['k'] == 'prim' and not repeated(ty['o']) and ty['p']['t'] in FALSY and rng.random() < 0.5:
+        f = FALSY[ty['p']['t']]
+        if py_prim_ok(ty['p'], f):
+            return f
+    if ty['k'] == 'arr' and not repeated(ty['o']) and rng.random() < 0.2:
+        return {'l': []}
+    return v
+
+
+def part_c01_client(ctx):
+    """the real Spyne client in a loop-back: positional / keyword / mixed calls with falsy boundary values; what the
+    function receives and what the caller gets back must equal what was passed / returned"""
+    rng = ctx.rng
+    queries, expect = [], []
+    n_univ = 80 if ctx.thorough else 12
+    for ui in range(n_univ):
+        u = gen_universe(rng, 6000 + ui)
+        b = build_classes(u)
+        servers = servers_for(b)
+        for mname in sorted(b.methods):
+            key, in_ty, out_ty = b.methods[mname]
+            for _ in range(4 if ctx.thorough else 2):
+                call = gen_call(rng, b, mname)
+                if call is None:
+                    continue
+                args, rets = call
+                args = [falsify(rng, t, v) for (_, t), v in zip(in_ty['fields'], args)]
+                rets = [falsify(rng, t, v) for (_, t), v in zip(out_ty['fields'], rets)]
+                names = [k for k, _ in in_ty['fields']]
+                npos = rng.randint(0, len(args))
+                # keyword arguments for the rest (None-valued ones may simply be left out), sometimes overriding a positional
+                kw = {}
+                for i in range(npos, len(args)):
+                    if args[i] is not None or rng.random() < 0.5:
+                        kw[names[i]] = args[i]
+                pos = list(args[:npos])
+                if npos and rng.random() < 0.2:
+                    j = rng.randrange(npos)
+                    kw[names[j]] = args[j]
+                    pos[j] = None
+                set_return(b, mname, out_ty, rets)
+                want_args = [py_norm(t, v) for (_, t), v in zip(in_ty['fields'], args)]
+                outv = msg_val(out_ty, rets)
+                want_ret = py_norm_one(out_ty, outv)
+                want_ret = (want_ret['o'][1][0][1] if len(out_ty['fields']) == 1 else want_ret)
+                inv = msg_val(in_ty, args)
+                for (proto, validator), (app, server) in sorted(servers.items(), key=str):
+                    if validator == 'soft' and (empty_bytes_nn(in_ty, inv) or empty_bytes_nn(out_ty, outv)):
+                        continue
+                    record = {}
+                    client = make_client(b, app, record)
+                    del b.calls[:]
+                    npos_nat = [to_native(b, t, v) for (_, t), v in zip(in_ty['fields'], pos)]
+                    kw_nat = {k: to_native(b, dict(in_ty['fields'])[k], v) for k, v in kw.items()}
+                    replay = {'kind': 'c01c', 'universe': u, 'proto': proto, 'validator': validator, 'method': mname,
+                              'positional': pos, 'keywords': [[k, v] for k, v in sorted(kw.items())], 'rets': rets}
+                    ctx.case({'p': proto, 'v': validator, 'pos': pos, 'kw': sorted(kw.items(), key=str), 'r': rets}, True)
+                    ctx.hit('client:npos=%d/kw=%d' % (min(npos, 3), min(len(kw), 3)))
+                    falsy_kw = [k for k, v in kw.items() if v in FALSY.values() or v == {'l': []}]
+                    if falsy_kw:
+                        ctx.hit('client:falsy-keyword')
+                    try:
+                        ret = getattr(client.service, mname)(*npos_nat, **kw_nat)
+                        err = None
+                    except Exception as e:
+                        ret, err = None, e
+                    replay['request'] = record.get('request', b'').decode('utf-8', 'replace')
+                    if err is not None:
+                        ctx.finding('c01:client-raised:%s' % type(err).__name__, 'the Spyne client raised %r for a conformant call'
+                                    % err, replay)
+                        continue
+                    if len(b.calls) != 1:
+                        ctx.finding('c01:client-calls=%d' % len(b.calls), 'function invoked %d times' % len(b.calls), replay)
+                        continue
+                    got = [from_native(b, t, a) for (_, t), a in zip(in_ty['fields'], b.calls[0][1])]
+                    if got != want_args:
+                        d = first_diff(msg_val(in_ty, want_args), msg_val(in_ty, got))
+                        ctx.finding('c01:client-args-differ:%s%s' % (diff_kind(d), ':falsy-keyword' if falsy_kw else ''),
+                                    'a value passed to the Spyne client did not reach the function (at %s; falsy keyword arguments: %s)'
+                                    % (d, falsy_kw), dict(replay, received=got, expected=want_args))
+                    if len(out_ty['fields']) == 1:
+                        got_ret = from_native(b, out_ty['fields'][0][1], ret)
+                    elif len(out_ty['fields']) == 0:
+                        got_ret = from_native_one(b, out_ty, ret) if ret is not None else msg_val(out_ty, [])
+                    else:
+                        got_ret = from_native_one(b, out_ty, ret)
+                    if got_ret != want_ret:
+                        ctx.finding('c01:client-result-differs', 'the Spyne client decoded a value different from the one the function '
+                                    'returned', dict(replay, received=got_ret, expected=want_ret))
+                    # T2: argument packing and result unwrapping
+                    queries.append({'op': 'client.pack', 'cfg': cfg_json(None), 'iface': slim_iface(b, False), 'inMsg': in_ty,
+                                    'args': pos, 'kwargs': [[k, v] for k, v in kw.items()]})
+                    expect.append(('client.pack', {'ok': msg_val(in_ty, [from_native(b, t, a) for (_, t), a in
+                                                                        zip(in_ty['fields'], record['out_object'])])}, replay))
+                    queries.append({'op': 'client.unwrap', 'cfg': cfg_json(None), 'iface': slim_iface(b, False), 'outMsg': out_ty,
+                                    'val': py_norm_one(out_ty, outv)})
+                    expect.append(('client.unwrap', {'ok': got_ret}, replay))
+    answers = ctx.model(queries, driver='C01')
+    for q, (op, impl, case), mod in zip(queries, expect, answers):
+        if norm_answer(mod) != impl:
+            ctx.disagree(op, case, impl, mod)
+    ctx.cov['rule_client'] = ('stock RemoteProcedureBase/ClientBase/RemoteService over an in-process transport; every call split at a '
+                              'random index into positional and keyword arguments (None-valued keywords left out half of the time, a '
+                              'positional sometimes overridden by keyword); values biased to the falsy value of their type')
+
+
+def replay_client(ctx, obj):
+    u = obj['universe']
+    b = build_classes(u)
+    app, server = make_app(b, obj['proto'], obj.get('validator'))
+    finish_built(b, app)
+    mname = obj['method']
+    key, in_ty, out_ty = b.methods[mname]
+    set_return(b, mname, out_ty, obj['rets'])
+    fields = dict(in_ty['fields'])
+    pos = [to_native(b, t, v) for (_, t), v in zip(in_ty['fields'], obj['positional'])]
+    kw = {k: to_native(b, fields[k], v) for k, v in obj['keywords']}
+    rec = {}
+    print('client.service.%s(*%r, **%r)   [%s, validator=%s]' % (mname, pos, kw, obj['proto'], obj.get('validator')))
+    try:
+        ret = getattr(make_client(b, app, rec).service, mname)(*pos, **kw)
+        print('returned :', ret)
+    except Exception as e:
+        print('raised   :', repr(e))
+    print('request  :', rec.get('request'))
+    print('function received:', [c[1] for c in b.calls])
+    for k in ('what', 'expected', 'received'):
+        if k in obj:
+            print('%s: %s' % (k, json.dumps(obj[k])[:1500]))
+    return 1
